@@ -31,6 +31,8 @@ func main() {
 		engineRegRace(f, res)
 	case "hist":
 		engineRegHist(f, res)
+	case "hold":
+		engineHold(f, res)
 	default:
 		if !engineC17(f, res) {
 			rep.Fatal(f, "unknown engine %q", f.Engine)
